@@ -35,6 +35,7 @@ _sys.path.insert(0, _os.path.join(_os.path.dirname(_os.path.abspath(__file__)), 
 import copy_utils_vf, maltese_vf, numpy_like_vf, reporting_vf  # pylint:disable=wrong-import-position
 
 KINDS = {
+    'super_chain_method': T.CHAIN.weight, 'super_chain_fn': T.chain_total,
     # top-level user modules whose names only BEGIN with an allow-listed module name
     'look_re': reporting_vf.classify, 'look_copy': copy_utils_vf.classify,
     'look_malt': maltese_vf.classify, 'look_numpy': numpy_like_vf.classify,
@@ -53,6 +54,8 @@ KINDS = {
 # call shapes: (positional template, keyword template); 'x','y','z' are replaced by
 # the symbolic ints, OBJ by T.OBJ, L by a small list
 SHAPES = {
+    'super_chain_method': [((), None)],
+    'super_chain_fn': [(('CHAIN', 'x'), None), (('CHAIN',), {'k': 'y'})],
     'look_re': [(('x',), None), (('x',), {'b': 'y'})],
     'look_copy': [(('x',), None)],
     'look_malt': [(('x',), None)],
@@ -94,7 +97,7 @@ SHAPES = {
 
 
 def _subst(v, x, y, z):
-  return {'x': x, 'y': y, 'z': z, 'OBJ': T.OBJ}.get(v, v) if v != 'L' else [x, y]
+  return {'x': x, 'y': y, 'z': z, 'OBJ': T.OBJ, 'CHAIN': T.CHAIN}.get(v, v) if v != 'L' else [x, y]
 
 
 def _norm(r):
@@ -151,7 +154,7 @@ def prewarm(name):
 # -- policy -------------------------------------------------------------------
 STATUSES = [ag_ctx.Status.UNSPECIFIED, ag_ctx.Status.ENABLED, ag_ctx.Status.DISABLED]
 
-CONVERTIBLE = {'look_re', 'look_copy', 'look_malt', 'look_numpy', 'fn', 'lam', 'bound', 'unbound', 'cmeth', 'cmeth_inst', 'smeth', 'callable_obj',
+CONVERTIBLE = {'super_chain_method', 'super_chain_fn', 'look_re', 'look_copy', 'look_malt', 'look_numpy', 'fn', 'lam', 'bound', 'unbound', 'cmeth', 'cmeth_inst', 'smeth', 'callable_obj',
                'decorated', 'raises', 'falsy_bound', 'falsy_callable', 'falsy_cmeth'}
 NEVER = {'cls', 'namedtuple', 'lru', 'execd', 'artifact', 'dnc', 'b_len', 'b_abs', 'b_max',
          'b_divmod', 'c_add', 'lib_escape', 'lib_copy', 'lib_odict'}
